@@ -1,4 +1,7 @@
 import IndicatifModel.Generated.Keys
+import IndicatifModel.Model.KeyDoc
+import IndicatifModel.Model.KeyValue
+import IndicatifModel.Proofs.Render
 /-!
 # C11 — placeholders: every documented key is implemented, and computes what the documentation says
 
@@ -29,39 +32,6 @@ theorem C11_keys_documented : ∀ k ∈ implementedKeys, k ∈ documentedKeys :=
 /-- no key is listed twice (a duplicated arm would be dead code) -/
 theorem C11_keys_nodup : implementedKeys.Nodup ∧ documentedKeys.Nodup := by decide
 
-/-- the documentation of the keys (`src/lib.rs`, "The following keys exist"), as a table: which value, which
-public formatter, which flags -/
-def documentedArms : List Arm := [
-  { key := [98, 97, 114], src := .fraction, wrap := .bar, alt := false, perS := false, percentDigits := none } /- bar: a progress bar of the completed fraction -/,
-  { key := [119, 105, 100, 101, 95, 98, 97, 114], src := .wideBar, wrap := .plain, alt := false, perS := false, percentDigits := none } /- wide_bar: like bar, filling the remaining space -/,
-  { key := [115, 112, 105, 110, 110, 101, 114], src := .tick, wrap := .plain, alt := false, perS := false, percentDigits := none } /- spinner: the current tick string -/,
-  { key := [112, 114, 101, 102, 105, 120], src := .prefix, wrap := .plain, alt := false, perS := false, percentDigits := none } /- prefix: the prefix -/,
-  { key := [109, 115, 103], src := .message, wrap := .plain, alt := false, perS := false, percentDigits := none } /- msg: the message -/,
-  { key := [119, 105, 100, 101, 95, 109, 115, 103], src := .wideMsg, wrap := .plain, alt := false, perS := false, percentDigits := none } /- wide_msg: like msg, filling the remaining space -/,
-  { key := [112, 111, 115], src := .pos, wrap := .plain, alt := false, perS := false, percentDigits := none } /- pos: the position as an integer -/,
-  { key := [104, 117, 109, 97, 110, 95, 112, 111, 115], src := .pos, wrap := .humanCount, alt := false, perS := false, percentDigits := none } /- human_pos: the position with thousands separators -/,
-  { key := [108, 101, 110], src := .len, wrap := .plain, alt := false, perS := false, percentDigits := none } /- len: the length as an integer -/,
-  { key := [104, 117, 109, 97, 110, 95, 108, 101, 110], src := .len, wrap := .humanCount, alt := false, perS := false, percentDigits := none } /- human_len: the length with thousands separators -/,
-  { key := [112, 101, 114, 99, 101, 110, 116], src := .fraction, wrap := .plain, alt := false, perS := false, percentDigits := some 0 } /- percent: percentage as an integer -/,
-  { key := [112, 101, 114, 99, 101, 110, 116, 95, 112, 114, 101, 99, 105, 115, 101], src := .fraction, wrap := .plain, alt := false, perS := false, percentDigits := some 3 } /- percent_precise: percentage with 3 fraction digits -/,
-  { key := [98, 121, 116, 101, 115], src := .pos, wrap := .humanBytes, alt := false, perS := false, percentDigits := none } /- bytes: the position as bytes -/,
-  { key := [116, 111, 116, 97, 108, 95, 98, 121, 116, 101, 115], src := .len, wrap := .humanBytes, alt := false, perS := false, percentDigits := none } /- total_bytes: the length as bytes -/,
-  { key := [100, 101, 99, 105, 109, 97, 108, 95, 98, 121, 116, 101, 115], src := .pos, wrap := .decimalBytes, alt := false, perS := false, percentDigits := none } /- decimal_bytes: the position, power-of-10 units -/,
-  { key := [100, 101, 99, 105, 109, 97, 108, 95, 116, 111, 116, 97, 108, 95, 98, 121, 116, 101, 115], src := .len, wrap := .decimalBytes, alt := false, perS := false, percentDigits := none } /- decimal_total_bytes: the length, power-of-10 units -/,
-  { key := [98, 105, 110, 97, 114, 121, 95, 98, 121, 116, 101, 115], src := .pos, wrap := .binaryBytes, alt := false, perS := false, percentDigits := none } /- binary_bytes: the position, power-of-two units -/,
-  { key := [98, 105, 110, 97, 114, 121, 95, 116, 111, 116, 97, 108, 95, 98, 121, 116, 101, 115], src := .len, wrap := .binaryBytes, alt := false, perS := false, percentDigits := none } /- binary_total_bytes: the length, power-of-two units -/,
-  { key := [101, 108, 97, 112, 115, 101, 100, 95, 112, 114, 101, 99, 105, 115, 101], src := .elapsed, wrap := .formattedDuration, alt := false, perS := false, percentDigits := none } /- elapsed_precise: elapsed time as HH:MM:SS -/,
-  { key := [101, 108, 97, 112, 115, 101, 100], src := .elapsed, wrap := .humanDuration, alt := true, perS := false, percentDigits := none } /- elapsed: elapsed time as 42s, 1m -/,
-  { key := [112, 101, 114, 95, 115, 101, 99], src := .perSec, wrap := .humanFloatCount, alt := false, perS := true, percentDigits := none } /- per_sec: steps per second -/,
-  { key := [98, 121, 116, 101, 115, 95, 112, 101, 114, 95, 115, 101, 99], src := .perSecU64, wrap := .humanBytes, alt := false, perS := true, percentDigits := none } /- bytes_per_sec: bytes per second -/,
-  { key := [100, 101, 99, 105, 109, 97, 108, 95, 98, 121, 116, 101, 115, 95, 112, 101, 114, 95, 115, 101, 99], src := .perSecU64, wrap := .decimalBytes, alt := false, perS := true, percentDigits := none } /- decimal_bytes_per_sec: bytes per second, power-of-10 units -/,
-  { key := [98, 105, 110, 97, 114, 121, 95, 98, 121, 116, 101, 115, 95, 112, 101, 114, 95, 115, 101, 99], src := .perSecU64, wrap := .binaryBytes, alt := false, perS := true, percentDigits := none } /- binary_bytes_per_sec: bytes per second, power-of-two units -/,
-  { key := [101, 116, 97, 95, 112, 114, 101, 99, 105, 115, 101], src := .eta, wrap := .formattedDuration, alt := false, perS := false, percentDigits := none } /- eta_precise: remaining time like elapsed_precise -/,
-  { key := [101, 116, 97], src := .eta, wrap := .humanDuration, alt := true, perS := false, percentDigits := none } /- eta: remaining time like elapsed -/,
-  { key := [100, 117, 114, 97, 116, 105, 111, 110, 95, 112, 114, 101, 99, 105, 115, 101], src := .duration, wrap := .formattedDuration, alt := false, perS := false, percentDigits := none } /- duration_precise: extrapolated total duration like elapsed_precise -/,
-  { key := [100, 117, 114, 97, 116, 105, 111, 110], src := .duration, wrap := .humanDuration, alt := true, perS := false, percentDigits := none } /- duration: extrapolated total duration like elapsed -/
-]
-
 def armOf (table : List Arm) (k : List Nat) : Option Arm := table.find? (fun a => a.key == k)
 
 /-- **Every documented key computes what the documentation says**: source value, formatter and flags of
@@ -74,5 +44,87 @@ theorem C11_spec_covers_documented : documentedArms.map (·.key) = documentedKey
 
 /-- **A missing length renders as the position**: the two definitions in front of the match -/
 theorem C11_missing_length_is_position : posIsPosition = true ∧ lenFallsBackToPos = true := by decide
+
+/-! ## the values: what each documented key renders from the getter values (`Model/KeyValue.lean`, stream C11R) -/
+open KeyValue
+
+/-- **the arms in the source render what the documented arms render**: for every documented key the text computed from
+the table regenerated from `src/style.rs` equals the text computed from the documented table, for all getter values -/
+theorem C11_source_key_text (v : Vals) (k : List Char) (w : Option Nat) (hk : keyCodes k ∈ documentedKeys) :
+    keyText implementedArms v k w = keyText documentedArms v k w := by
+  have h := (C11_arms_as_documented (keyCodes k) hk).1
+  unfold armOf at h
+  unfold keyText
+  rw [h]
+
+/-- **C11 (values).** Every documented key, for all getter values `v` (position, length or none, elapsed / remaining /
+total time, rate, message, prefix, tick string) and every width field `w`: the pos / len / bytes families are the
+getters through the public formatters, the time keys the formatted getter values, `per_sec` the rate with the precision
+of the width field (4 without one) and `/s`, msg / prefix / spinner the current texts. -/
+theorem C11_key_values (v : Vals) (w : Option Nat) :
+    let T := keyText documentedArms v
+    T ['p','o','s'] w = some (Format.digits v.pos) ∧
+    T ['h','u','m','a','n','_','p','o','s'] w = some (Format.humanCount v.pos) ∧
+    T ['l','e','n'] w = some (Format.digits (v.len.getD v.pos)) ∧
+    T ['h','u','m','a','n','_','l','e','n'] w = some (Format.humanCount (v.len.getD v.pos)) ∧
+    T ['p','e','r','c','e','n','t'] w = some (Format.fmtFixed (percentBits v.pos v.len) 0) ∧
+    T ['p','e','r','c','e','n','t','_','p','r','e','c','i','s','e'] w = some (Format.fmtFixed (percentBits v.pos v.len) 3) ∧
+    T ['b','y','t','e','s'] w = some (Format.humanBytes v.pos true) ∧
+    T ['t','o','t','a','l','_','b','y','t','e','s'] w = some (Format.humanBytes (v.len.getD v.pos) true) ∧
+    T ['d','e','c','i','m','a','l','_','b','y','t','e','s'] w = some (Format.humanBytes v.pos false) ∧
+    T ['d','e','c','i','m','a','l','_','t','o','t','a','l','_','b','y','t','e','s'] w = some (Format.humanBytes (v.len.getD v.pos) false) ∧
+    T ['b','i','n','a','r','y','_','b','y','t','e','s'] w = some (Format.humanBytes v.pos true) ∧
+    T ['b','i','n','a','r','y','_','t','o','t','a','l','_','b','y','t','e','s'] w = some (Format.humanBytes (v.len.getD v.pos) true) ∧
+    T ['e','l','a','p','s','e','d','_','p','r','e','c','i','s','e'] w = some (Format.formattedDuration (v.elapsed / Format.NS)) ∧
+    T ['e','l','a','p','s','e','d'] w = some (Format.humanDuration v.elapsed true) ∧
+    T ['e','t','a','_','p','r','e','c','i','s','e'] w = some (Format.formattedDuration (v.eta / Format.NS)) ∧
+    T ['e','t','a'] w = some (Format.humanDuration v.eta true) ∧
+    T ['d','u','r','a','t','i','o','n','_','p','r','e','c','i','s','e'] w = some (Format.formattedDuration (v.duration / Format.NS)) ∧
+    T ['d','u','r','a','t','i','o','n'] w = some (Format.humanDuration v.duration true) ∧
+    T ['p','e','r','_','s','e','c'] w = some (Format.humanFloatCount v.perSecBits (w.getD 4) ++ ['/', 's']) ∧
+    T ['b','y','t','e','s','_','p','e','r','_','s','e','c'] w = some (Format.humanBytes (f64AsU64 v.perSecBits) true ++ ['/', 's']) ∧
+    T ['d','e','c','i','m','a','l','_','b','y','t','e','s','_','p','e','r','_','s','e','c'] w = some (Format.humanBytes (f64AsU64 v.perSecBits) false ++ ['/', 's']) ∧
+    T ['b','i','n','a','r','y','_','b','y','t','e','s','_','p','e','r','_','s','e','c'] w = some (Format.humanBytes (f64AsU64 v.perSecBits) true ++ ['/', 's']) ∧
+    T ['m','s','g'] w = some v.msg ∧ T ['p','r','e','f','i','x'] w = some v.pfx ∧ T ['s','p','i','n','n','e','r'] w = some v.tick ∧
+    T ['b','a','r'] w = some (barText v (w.getD 20)) := by
+  refine ⟨rfl, rfl, rfl, rfl, rfl, rfl, rfl, rfl, rfl, rfl, rfl, rfl, rfl, rfl, rfl, rfl, rfl, rfl, rfl, rfl, rfl, rfl, rfl, rfl, rfl, rfl⟩
+
+/-- **C11 (a missing length renders as the position)**, key by key: with no length the five length keys render what the
+corresponding position keys render -/
+theorem C11_missing_length_renders_position (v : Vals) (w : Option Nat) (h : v.len = none) :
+    let T := keyText documentedArms v
+    T ['l','e','n'] w = T ['p','o','s'] w ∧
+    T ['h','u','m','a','n','_','l','e','n'] w = T ['h','u','m','a','n','_','p','o','s'] w ∧
+    T ['t','o','t','a','l','_','b','y','t','e','s'] w = T ['b','y','t','e','s'] w ∧
+    T ['d','e','c','i','m','a','l','_','t','o','t','a','l','_','b','y','t','e','s'] w = T ['d','e','c','i','m','a','l','_','b','y','t','e','s'] w ∧
+    T ['b','i','n','a','r','y','_','t','o','t','a','l','_','b','y','t','e','s'] w = T ['b','i','n','a','r','y','_','b','y','t','e','s'] w := by
+  have hv := C11_key_values v w
+  simp only at hv
+  obtain ⟨h1, h2, h3, h4, _, _, h7, h8, h9, h10, h11, h12, _⟩ := hv
+  simp only [h1, h2, h3, h4, h7, h8, h9, h10, h11, h12, h, Option.getD_none, and_self]
+
+/-- **C11 (in the frame).** In the rendering walk a placeholder of a key that is not overridden by a custom key and is not
+one of the two wide keys contributes exactly the key's text (as glyphs), padded or truncated to its width field -/
+theorem C11_placeholder_shows_key_text (table : List Arm) (v : Vals) (W tab : Nat) (cw : Nat → Nat) (custom : List Char → Option (List Pad.G))
+    (k : List Char) (a : Template.Align) (t : Bool) (s sa : Option (List Char))
+    (hc : custom k = none) (h1 : k ≠ Render.wideBarKey) (h2 : k ≠ Render.wideMsgKey) :
+    let g : Char → Pad.G := fun c => { cp := c.toNat, w := cw c.toNat, b := Render.utf8Len c.toNat }
+    Render.expansion (envOf table v W tab cw custom) (.ph k a none t s sa) = ((keyText table v k none).getD []).map g ∧
+    ∀ n, Render.expansion (envOf table v W tab cw custom) (.ph k a (some n) t s sa)
+      = Pad.pad (((keyText table v k (some n)).getD []).map g) n (Render.toPad a) t := by
+  have hf : ∀ w, (Render.fieldText (envOf table v W tab cw custom) k (Render.toPad a) w).1
+      = ((keyText table v k w).getD []).map (fun c => ({ cp := c.toNat, w := cw c.toNat, b := Render.utf8Len c.toNat } : Pad.G)) := by
+    intro w
+    simp only [Render.fieldText, envOf, hc, h1, h2, if_false]
+    cases keyText table v k w <;> simp
+  exact ⟨by simp [Render.expansion, hf], fun n => by simp [Render.expansion, hf]⟩
+
+/-- non-vacuity: position 1234 of 5000 after 61.5 s -/
+example :
+    let v : Vals := Vals.mk 1234 (some 5000) 61500000000 0 0 0 [] [] [] [] 1
+    keyText documentedArms v ['h','u','m','a','n','_','p','o','s'] none = some ['1', ',', '2', '3', '4'] ∧
+    keyText documentedArms v ['e','l','a','p','s','e','d','_','p','r','e','c','i','s','e'] none = some ['0','0',':','0','1',':','0','1'] ∧
+    keyText documentedArms v ['e','l','a','p','s','e','d'] none = some ['6', '2', 's'] := by
+  refine ⟨by decide +kernel, by decide +kernel, by decide +kernel⟩
 
 end IndicatifModel.Generated
